@@ -34,7 +34,7 @@ def from_json(j):
 
 
 brk_item = st.one_of(
-    st.sampled_from(["a", "b", "c", "A", "_", "1", " ", "é", "日", ".", "*", "(", "[", "[", "*", "="]).map(lambda c: ["c", c]),
+    st.sampled_from(["a", "b", "c", "A", "_", "1", " ", "é", "日", ".", "*", "(", "[", "[", "*", "=", "\\", "\\"]).map(lambda c: ["c", c]),
     st.sampled_from([("a", "c"), ("0", "9"), ("A", "B"), ("a", "z"), ("é", "日"), ("b", "b")]).map(lambda t: ["r", t[0], t[1]]),
     st.sampled_from(CLASSNAMES).map(lambda c: ["k", c]),
 )
